@@ -13,9 +13,9 @@ from sv import core
 PROPERTY = "C06"
 GEN = ["CrpsEns"]
 PROPS = ["ScoresVerif/Props/C06Gen.lean", "ScoresVerif/Props/C06.lean", "ScoresVerif/Props/C06Bridge.lean", "ScoresVerif/Props/C06Tw.lean",
-         "ScoresVerif/Props/C06TwBridge.lean"]
+         "ScoresVerif/Props/C06TwBridge.lean", "ScoresVerif/Props/C06Components.lean", "ScoresVerif/Props/C06ComponentsBridge.lean"]
 DRIVER_DEPS = ["ScoresVerif.Driver.C06", "ScoresVerif.Driver.C06Gen"]
-AUDIT_FILES = ["ScoresVerif/Lemmas/Bridge.lean", "ScoresVerif/Lemmas/CrpsEns.lean", "ScoresVerif/Lemmas/CrpsEnsBrier.lean", "ScoresVerif/Lemmas/CrpsEnsC06Tw.lean", "ScoresVerif/Lemmas/C06TwBridge.lean", "ScoresVerif/Model/CrpsEns.lean", "ScoresVerif/Spec/CrpsEns.lean"]
+AUDIT_FILES = ["ScoresVerif/Lemmas/Bridge.lean", "ScoresVerif/Lemmas/CrpsEns.lean", "ScoresVerif/Lemmas/CrpsEnsBrier.lean", "ScoresVerif/Lemmas/CrpsEnsC06Tw.lean", "ScoresVerif/Lemmas/C06TwBridge.lean", "ScoresVerif/Lemmas/C06Components.lean", "ScoresVerif/Lemmas/C06ComponentsBridge.lean", "ScoresVerif/Model/CrpsEns.lean", "ScoresVerif/Spec/CrpsEns.lean"]
 LEVEL = "proof"
 TRUSTED = ["row translator tools/py2lean_row.py + tools/gen/CrpsEns.py: crps_for_ensemble (per case), its component block, the tail / interval "
            "chaining functions and the tw call sites are regenerated from the source on every run; Props/C06Gen.lean proves regenerated = "
